@@ -13,6 +13,7 @@
            inner = value of the conditional computed by Evaluator.tla (Holds / CondVal), wrap = "" | "2*(" | "1+(" *)
 EXTENDS Evaluator, Judge
 Check(name, b) == IF b THEN {} ELSE {name}
+Exactly(r, n) == r.got = "value" /\ r.tight /\ r.q = n
 Times(r, den) == IF den % r[2] = 0 THEN r[1] * (den \div r[2]) ELSE -999999
 \* C13: getCxxFormula preserves the value (cxxv = value of the compiled C++ formula, "skip" when not compiled in this tier)
 CxxOK(o, expected) == o.cxxv.got = "skip" \/ (o.cxxv.got = "value" /\ o.cxxv.tight /\ o.cxxv.q = expected)
@@ -30,12 +31,14 @@ FailsFn(o) == Check("function:" \o o.f, o.got = o.expect /\ (o.got = "throw" \/ 
 CondExpected(o) == IF o.wrap = "2*(" THEN 2 * o.inner ELSE IF o.wrap = "1+(" THEN 1 + o.inner ELSE o.inner
 \* parameters and external functions: direct value, value after resolveDependencies(), value of the function obtained by turning
 \* p into a variable (set to the value of p), resolved or not; when the formula does not name p the rewriting may be refused
-Exactly(r, n) == r.got = "value" /\ r.tight /\ r.q = n
 Rewritten(o, r) == IF o.direct THEN Exactly(r, o.n0) ELSE (r.got = "throw" \/ Exactly(r, o.n0))
 FailsDeps(o) == Check("dependencies:direct", Exactly(o.direct_, o.n0)) \cup Check("dependencies:resolved", Exactly(o.resolved, o.n0))
                 \cup Check("dependencies:parameter-as-variable", Rewritten(o, o.asvar))
                 \cup Check("dependencies:parameter-as-variable-then-resolved", Rewritten(o, o.asvarres))
-FailsCond(o) == Check("cxx-formula:conditional", CxxOK(o, CondExpected(o))) \cup UNION {Check("conditional:" \o k, o[k].got = "value" /\ o[k].tight /\ o[k].q = CondExpected(o)) : k \in {"min", "full"}}
+DWrap(o, d) == IF o.wrap = "2*(" THEN 2 * d ELSE d
+FailsCond(o) == Check("cxx-formula:conditional", CxxOK(o, CondExpected(o)))
+                \cup Check("derivative:conditional", Exactly(o.dx, DWrap(o, o.dxi)) /\ Exactly(o.dy, DWrap(o, o.dyi)))
+                \cup UNION {Check("conditional:" \o k, o[k].got = "value" /\ o[k].tight /\ o[k].q = CondExpected(o)) : k \in {"min", "full"}}
 Fails(o) == IF o.kind = "arith" THEN FailsArith(o)
             ELSE IF o.kind = "cond" THEN FailsCond(o)
             ELSE IF o.kind = "deps" THEN FailsDeps(o)
